@@ -98,6 +98,38 @@ def run(ctx, rep):
     rep.ob("R02.1", "BaseNetref.__exit__ -> _handle_ctxexit calls the target's __exit__ through the policy", bool(okx and okh),
            "self._handle_getattr(obj, '__exit__')(...)" if okx and okh else "__exit__ is not wired to the target's __exit__",
            hx.loc if hx else "?", kind="table")
+    # _handle_ctxexit: model evaluation - the target's __exit__ gets the exception triple (or three Nones) and its answer (which
+    # decides whether the exception is swallowed) is what the handler returns
+    if hx is not None:
+        from .. import miniinterp as MIx
+        bad_x = []
+        try:
+            for label, exc in (("normal exit", None), ("exit with an exception", MIx.Raised("ValueError", "BODY-ERROR"))):
+                calls_x = []
+
+                def exit_fn(*a, calls_x=calls_x):
+                    calls_x.append(a)
+                    return "EXIT-ANSWER"
+                asked = []
+
+                def hga(o_, n_, asked=asked):
+                    asked.append((o_, n_))
+                    return exit_fn
+                try:
+                    got = MIx.call_method(hx.node, {}, ["TARGET", exc], {"__calls__": {
+                        "self._handle_getattr": hga, "sys.exc_info": lambda: ("EXC-TYPE", "EXC-VALUE", "EXC-TB")}})
+                    res = ("value", got)
+                except MIx.Raised as r_:
+                    res = ("raise", r_.name)
+                want_args = (None, None, None) if exc is None else ("EXC-TYPE", "EXC-VALUE", "EXC-TB")
+                if res != ("value", "EXIT-ANSWER") or calls_x != [want_args] or asked != [("TARGET", "__exit__")]:
+                    bad_x.append("%s: handler %s, __exit__ called with %s" % (
+                        label, "returns %r" % (res[1],) if res[0] == "value" else "raises %s" % res[1], calls_x))
+            rep.ob("R02.1", "_handle_ctxexit: __exit__ receives the exception triple and its answer is returned to the proxy",
+                   not bad_x, "normal exit and exit-with-exception evaluated" if not bad_x else
+                   "; ".join(bad_x) + " - a remote context manager that swallows the exception is not honoured", hx.loc, kind="table")
+        except AnalysisError as e_:
+            rep.undecided("R02.1", "_handle_ctxexit", str(e_))
     for hname, op in (("_handle_repr", "repr"), ("_handle_str", "str"), ("_handle_hash", "hash"), ("_handle_dir", "dir")):
         h = ctx.func(K.CONN + "." + hname)
         got = handler_operation(ctx, h)
